@@ -38,7 +38,7 @@ def sliceLen (start stop step : Int) : Nat :=
 def sliceIdx (n : Nat) (start stop : Option Int) (step : Int) : List Nat :=
   let s := sliceStart n step start
   let e := sliceStop n step stop
-  (List.range (sliceLen s e step)).map (fun j => (s + (j : Int) * step).toNat)
+  (List.range (sliceLen s e step)).map (fun (j : Nat) => (s + (j : Int) * step).toNat)
 
 /-- `xs[start:stop:step]`; `none` is the ValueError for `step == 0` -/
 def pySlice {α} (xs : List α) (start stop step : Option Int) : Option (List α) :=
